@@ -25,7 +25,7 @@ RULE = ('Every case evaluates ALL operations of the statement on freshly generat
         'dyadic extents). Swizzling is ENUMERATED exhaustively per case: every string of length 2-4 over the '
         'component letters (28 / 117 / 336) plus invalid strings. Float regime (magnitudes in {0} u [1e-3, '
         '1e3], tolerance 1e-9 relative + 1e-9 absolute): abs/mag/distance (also of points 1e-6..1 apart but far from the origin, both ways round, and of a point to an equal copy; expected value computed exactly over the rationals and rounded once), normalize, from_magnitude, '
-        'from_heading, from_polar, rotate, limit with |v|/m concentrated in [0.3, 3] and m on both sides of 1. '
+        'from_heading, from_polar, rotate (generated angles and landmark angles: exact float multiples of pi/2, pi/4, 15 degrees and pi, both signs, beyond a full turn), limit with |v|/m concentrated in [0.3, 3] and m on both sides of 1. '
         ''
         'In ~8% of the cases 64-520 distinct angles are swept twice through from_polar / from_heading. '
         ''
@@ -443,6 +443,23 @@ def floats(f, sel, facts, amp=0):
             viol('rotate_advances_the_heading', a=a, angle=ang, got=rot)
         if not close(math.cos(va.heading), a[0] / la) or not close(math.sin(va.heading), a[1] / la):
             viol('heading_is_the_angle_of_the_vector', a=a, got=va.heading)
+        # landmark angles (exact float multiples of pi/2, pi/4, 15 degrees; both signs; more than a full turn):
+        # the angles programs actually pass, and the ones an implementation is tempted to special-case
+        k = sel % 33 - 16
+        for lm in (k * math.pi / 2, k * math.pi / 4, math.radians(15 * k), -(k * math.pi / 2), k * math.pi):
+            for v_, l_, h_ in ((va, la, h0), (dm.Vec2(1.0, 0.0), 1.0, 0.0), (dm.Vec2(0.0, 2.0), 2.0, math.pi / 2)):
+                rot = v_.rotate(lm)
+                if not close(abs(rot), l_, l_):
+                    viol('rotate_keeps_the_length', a=v_, angle=lm, got=abs(rot))
+                if not (close(rot[0], l_ * math.cos(h_ + lm), l_) and close(rot[1], l_ * math.sin(h_ + lm), l_)):
+                    viol('rotate_advances_the_heading', a=v_, angle=lm, got=rot)
+                fh = v_.from_heading(lm)
+                if not (close(fh[0], l_ * math.cos(lm), l_) and close(fh[1], l_ * math.sin(lm), l_)):
+                    viol('from_heading_sets_the_heading', a=v_, heading=lm, got=fh)
+            fp = dm.Vec2.from_polar(2.5, lm)
+            if not (close(fp[0], 2.5 * math.cos(lm), 2.5) and close(fp[1], 2.5 * math.sin(lm), 2.5)):
+                viol('from_polar_builds_the_vector_of_that_magnitude_and_angle', r=2.5, angle=lm, got=fp)
+        facts['landmark_angles'] += 1
     if amp:
         # a turret sweeping: many distinct angles one after the other, then the same angles again - the answer for an
         # angle does not depend on which angles were asked before
